@@ -27,6 +27,7 @@ class FrameParser(Parser):
         self.parse_headers = parse_headers
         self.validate = validate
         self._is_text = False
+        self._is_compressed = False
         self._utf8_validator = Utf8Validator()
         self._frame_class = Frame
         self._compression = False
@@ -46,7 +47,8 @@ class FrameParser(Parser):
 
     def read_text(self, length):
         """Read encoded text."""
-        if self._compression:
+        if self._is_compressed:
+            # Can only be validated after decompression
             return self.read(length)
         else:
             return self.read_utf8(length, self._utf8_validator)
@@ -102,6 +104,9 @@ class FrameParser(Parser):
 
             if frame.is_text:
                 self._is_text = True
+                # RSV1 on the first frame tells if the message is
+                # compressed, not the mere presence of the extension
+                self._is_compressed = bool(self._compression and frame.rsv1)
 
             if payload_length:
                 _is_text_continuation = (
@@ -118,7 +123,7 @@ class FrameParser(Parser):
     def on_frame(self, frame):
         """Called with new frames."""
         if (
-            not self._compression
+            not self._is_compressed
             and frame.fin
             and (frame.is_text or frame.is_continuation)
         ):
